@@ -66,6 +66,13 @@ ASSUMPTIONS = [
     "in add_mode='single' with zero rows in total the feedback dict handed to the emitters has no keys; accepted",
 ]
 TECHNIQUE = "Lean 4 model + theorems; lock-step correspondence with spy emitters and recording archives; log oracle"
+LEVEL_TEXT = ("proof (unbounded: any number of emitters, all batch sizes, both add modes, with/without result archive, "
+              "every call sequence legal or not) about the scheduler model; archive contents under the two add modes "
+              "(T04.4) by correspondence on the real GridArchive only; correspondence on generated call sequences")
+TRUSTED_EXTRA = [
+    "the spy emitters (EmitterBase subclasses) and the recording archive subclasses of the harness",
+    "the (emitter, iteration, position) / (iteration, row) encodings of solutions and per-row values",
+]
 
 SOLDIM = 3
 MDIM = 2
@@ -455,11 +462,12 @@ def run_mode(case, mode, drv):
         if got == "ok" and base in ("ask", "askdqd"):
             dqd = base == "askdqd"
             asks = [e for e in new if e["ev"] == "ask"]
-            if len(asks) != len(new) or [e["em"] for e in asks] != list(range(k)) or \
+            if len(asks) != len(new) or sorted(e["em"] for e in asks) != list(range(k)) or \
                     any(e["dqd"] != dqd for e in asks):
-                return Failure("oracle", f"{where}: emitters not asked once each, in order: "
+                return Failure("oracle", f"{where}: emitters not asked exactly once each: "
                                f"{[(e['ev'], e.get('em'), e.get('dqd')) for e in new]}"), None, None
-            outs = [e["out"] for e in asks]
+            # (the order of the calls is compared with the model below; the property fixes the order of the rows)
+            outs = [e["out"] for e in sorted(asks, key=lambda e: e["em"])]
             want = np.concatenate(outs, axis=0)
             ret = np.asarray(ret)
             if ret.shape != want.shape or not np.array_equal(ret, want):
@@ -547,9 +555,9 @@ def run_mode(case, mode, drv):
             fb = {key: np.concatenate(v, axis=0)[inv] for key, v in fb.items()}
             # (b) every emitter told once, in order, exactly its own rows of every array
             told = [e["em"] for e in tells]
-            if told != sorted(set(told)) or any(e["dqd"] != dqd for e in tells) or \
+            if len(told) != len(set(told)) or any(e["dqd"] != dqd for e in tells) or \
                     any(ns[e] > 0 and e not in told for e in range(k)) or any(not 0 <= e < k for e in told):
-                return Failure("oracle", f"{where}: emitters not told once each, in order: "
+                return Failure("oracle", f"{where}: emitters not told exactly once each: "
                                f"{[(e['em'], e['dqd']) for e in tells]} (batch sizes {ns})"), None, None
             if told != list(range(k)):
                 # an emitter that generated nothing was not told at all: the rows are still all routed, so the
@@ -705,13 +713,13 @@ def run(ctx):
 
 def _run(ctx, q):
     ctx.explore("grid", lambda r: gen_with("grid", r), run_case, ctx.n(220, 9000), nontrivial=nontrivial,
-                time_budget=12 if q else 150)
+                time_budget=9 if q else 120)
     ctx.explore("cmamae-result", lambda r: gen_with("cmamae", r), run_case, ctx.n(100, 4000),
-                nontrivial=nontrivial, time_budget=7 if q else 90)
+                nontrivial=nontrivial, time_budget=6 if q else 70)
     ctx.explore("proximity-objective-none", lambda r: gen_with("proximity", r), run_case, ctx.n(100, 4000),
-                nontrivial=nontrivial, time_budget=7 if q else 90)
+                nontrivial=nontrivial, time_budget=6 if q else 70)
     ctx.explore("long", lambda r: gen_with(r.choice(["grid", "grid", "cmamae", "proximity"]), r, long=True),
-                run_case, ctx.n(40, 3000), nontrivial=nontrivial, time_budget=8 if q else 120)
+                run_case, ctx.n(40, 3000), nontrivial=nontrivial, time_budget=6 if q else 90)
 
 
 def replay(ctx, case):
